@@ -169,10 +169,6 @@ pub fn entry_summary(subject: K, kind: K, e: &[u8], subn: u32, aux: u64) -> Resu
             eq("private-resource count @16", n, subn as u64)?;
             eq("length @1", e[1] as u64, 20 + 4 * n)?;
         }
-        (K::Pptt, K::PpCache) => {
-            need(28)?;
-            eq("length @1", e[1] as u64, 28)?;
-        }
         (K::Hmat, K::HmSysLoc) => {
             need(32)?;
             let i = le32(e, 12).unwrap() as u64;
@@ -187,25 +183,26 @@ pub fn entry_summary(subject: K, kind: K, e: &[u8], subn: u32, aux: u64) -> Resu
             eq("SMBIOS handle count @30", n, subn as u64)?;
             eq("length @4", le32(e, 4).unwrap() as u64, 32 + 2 * n)?;
         }
-        (K::Hmat, K::HmMemProx) => {
-            need(40)?;
-            eq("length @4", le32(e, 4).unwrap() as u64, 40)?;
-        }
         (K::Rimt, K::RiIommu) => {
             need(32)?;
             let n = le16(e, 28).unwrap() as u64;
             let off = le16(e, 30).unwrap() as u64;
             eq("interrupt-wire count @28", n, subn as u64)?;
-            eq("interrupt-wire array offset @30", off, 32)?;
-            eq("length @2", le16(e, 2).unwrap() as u64, off + 8 * n)?;
+            // the array offset must be where the array is: the wires are the tail of the record
+            eq("length @2 versus interrupt-wire array offset @30 + 8 per wire", le16(e, 2).unwrap() as u64, off + 8 * n)?;
+            if off < 32 {
+                return Err(format!("RiIommu: interrupt-wire array offset @30 is {}, inside the fixed part", off));
+            }
         }
         (K::Rimt, K::RiRc) => {
             need(16)?;
             let off = le16(e, 12).unwrap() as u64;
             let n = le16(e, 14).unwrap() as u64;
             eq("id-mapping count @14", n, subn as u64)?;
-            eq("id-mapping array offset @12", off, 16)?;
-            eq("length @2", le16(e, 2).unwrap() as u64, off + 20 * n)?;
+            eq("length @2 versus id-mapping array offset @12 + 20 per mapping", le16(e, 2).unwrap() as u64, off + 20 * n)?;
+            if off < 16 {
+                return Err(format!("RiRc: id-mapping array offset @12 is {}, inside the fixed part", off));
+            }
         }
         (K::Rimt, K::RiPlatform) => {
             need(13)?;
@@ -245,8 +242,6 @@ pub fn entry_summary(subject: K, kind: K, e: &[u8], subn: u32, aux: u64) -> Resu
             eq("offset count @6", n, subn as u64)?;
             eq("length @2", le16(e, 2).unwrap() as u64, 12 + 4 * n)?;
         }
-        (K::Rhct, K::RhCmo) => eq("length @2", le16(e, 2).unwrap_or(0) as u64, 10)?,
-        (K::Rhct, K::RhMmu) => eq("length @2", le16(e, 2).unwrap_or(0) as u64, 8)?,
         (K::Cedt, K::CeCxims) => {
             need(8)?;
             let n = e[7] as u64;
